@@ -705,3 +705,13 @@ func DefaultSalt(realm string, comps []string) string {
 	}
 	return s
 }
+
+// HMACMD5Checksum is the RFC 4757 section 4 checksum (type -138) with a key of any length, as
+// MS-PAC 2.8.1 uses it with AES keys.
+func HMACMD5Checksum(key []byte, usage uint32, data []byte) []byte {
+	ksign := hmacMD5(key, []byte("signaturekey\x00"))
+	h := md5.New()
+	h.Write(rc4UsageBytes(usage))
+	h.Write(data)
+	return hmacMD5(ksign, h.Sum(nil))
+}
